@@ -124,6 +124,18 @@ def run_case(case, ctx):
                     if r["alone"][n] != r["base"][n]:
                         ctx.viol("depends-on-other-streams", {**info, "stream": n, "base": r["base"][n], "alone": r["alone"][n]})
                         return
+            # (f) a custom fallback updater installed with set_fallback_stream_updater serves the unlisted streams
+            if cfg["updater"] == "table" and err is None and r["custom"].get("__error__") is None:
+                ctx.count("custom_fallback_checks")
+                if r["custom"].get("__fallback_getter_ok__") is not True:
+                    ctx.viol("fallback-getter-does-not-return-the-installed-updater", {**info, "hashseed": h})
+                    return
+                for n in names:
+                    want_seed = cfg["table"][n][cfg["r"]] if n in cfg["table"] else 7000 + 13 * len(n) + cfg["r"]
+                    if r["custom"][n][0] != want_seed:
+                        ctx.viol("unlisted-stream-not-served-by-the-installed-fallback" if n not in cfg["table"] else "listed-stream-not-seeded-from-table",
+                                 {**info, "stream": n, "got": r["custom"][n][0], "want": want_seed, "hashseed": h})
+                        return
             # (d)/(e) table semantics
             if cfg["updater"] == "table":
                 table = cfg["table"]
